@@ -693,7 +693,7 @@ func (fr *Frame) makeInterface(x *ssa.MakeInterface, st *State) Val {
 		c.smt.declareFun("iface_payload", []string{"Int"}, "Int")
 		c.smt.assume(eq(app("iface_payload", r), v.Term), "")
 	}
-	return Val{T: x.Type(), Term: r}
+	return Val{T: x.Type(), Term: r, Dyn: &DynVal{T: x.X.Type(), V: v}}
 }
 
 func (fr *Frame) typeAssert(x *ssa.TypeAssert, st *State, reach string) Val {
